@@ -294,7 +294,7 @@ class _ByteLog(S._Log):
     def exception(self, *a, **k):
         import sys
         kind = S.exc_kind(sys.exc_info()[0])
-        self.eff.append(("R" if sys._getframe(1).f_code.co_name == "socket_read_task" else "C", kind))
+        self.eff.append(("R" if C.log_origin() == "task" else "C", kind))
 
 
 def feed_bytes(impl, ev, chunk, pre, cur):
